@@ -58,6 +58,7 @@ THEOREMS = [
     "Cotengra.C05.validLinear_iff_spec",
     "Cotengra.C05.validSSA_iff_spec",
     "Cotengra.C05.checkTree_sound",
+    "Cotengra.C05.validShape_caterpillar",
     "Cotengra.C05.fromPath_complete",
     "Cotengra.C05.fromSSA_complete",
     "Cotengra.C05.processor_path_valid",
